@@ -1,0 +1,57 @@
+//go:build verif
+
+/*
+ * Verification hooks. Compiled only with `-tags verif`; they add exported entry points to
+ * unexported routines and let a test harness substitute collaborators. No existing code is changed.
+ */
+package schedulerplugin
+
+import (
+	corev1 "k8s.io/api/core/v1"
+	"k8s.io/utils/keymutex"
+	"tkestack.io/galaxy/pkg/ipam/cloudprovider"
+	"tkestack.io/galaxy/pkg/ipam/floatingip"
+)
+
+// VerifResyncOnce runs one resync pass (the body of the periodic resync routine).
+func (p *FloatingIPPlugin) VerifResyncOnce() error { return p.resyncPod() }
+
+// VerifSyncPodIPs runs one pod-ip sync pass (the second half of the periodic routine).
+func (p *FloatingIPPlugin) VerifSyncPodIPs() { p.syncPodIPsIntoDB() }
+
+// VerifUnbind handles one release event for the given pod object, as the event loop does.
+func (p *FloatingIPPlugin) VerifUnbind(pod *corev1.Pod) error { return p.unbind(pod) }
+
+// VerifSetCloudProvider installs a cloud provider.
+func (p *FloatingIPPlugin) VerifSetCloudProvider(c cloudprovider.CloudProvider) { p.cloudProvider = c }
+
+// VerifWrapIPAM replaces the plugin's IPAM by wrap(current IPAM).
+func (p *FloatingIPPlugin) VerifWrapIPAM(wrap func(floatingip.IPAM) floatingip.IPAM) {
+	p.ipam = wrap(p.ipam)
+}
+
+// VerifSetLocks replaces the keyed mutexes protecting pods and deployment/pool prefixes.
+func (p *FloatingIPPlugin) VerifSetLocks(podLocks, dpLocks keymutex.KeyMutex) {
+	if podLocks != nil {
+		p.podLockPool = podLocks
+	}
+	if dpLocks != nil {
+		p.dpLockPool = dpLocks
+	}
+}
+
+// VerifDrainEvents removes and returns the pods of all queued release events without blocking.
+func (p *FloatingIPPlugin) VerifDrainEvents() []*corev1.Pod {
+	var pods []*corev1.Pod
+	for {
+		select {
+		case ev := <-p.unreleased:
+			pods = append(pods, ev.pod)
+		default:
+			return pods
+		}
+	}
+}
+
+// VerifReloadConfigMap fetches the floatingip config map once and reconfigures the pool if it changed.
+func (p *FloatingIPPlugin) VerifReloadConfigMap() (bool, error) { return p.updateConfigMap() }
